@@ -214,7 +214,15 @@ def run(ctx, chk, tier):
     q = "score_analysis.utils.binomial_ci"
     v, err = eval_fn(ctx, chk, q, [Cn, Nn], {"alpha": A})
     if v is None:
-        chk.unknown("R04.4", "binomial_ci: " + err)
+        # one formula for every alpha in (0, 1): a path split (or a raise) that depends on alpha alone changes the interval for part of the range
+        outs_ = ctx.explore(lambda: ctx.ev.call(ctx.fn(q), [Cn, Nn], {"alpha": A}), chk)
+        conds = [c for o in outs_ for c, _t in o.pc]
+        only_alpha = bool(conds) and all(all((not isinstance(a, Sym)) or a == A for a in atoms_of(c)) and any(a == A for a in atoms_of(c)) for c in conds)
+        if only_alpha:
+            chk.violation("R04.4", q, "alpha-branch", "behaviour branches on alpha: %s (%s)" % (sorted({show(c, 80) for c in conds})[:3], err),
+                          "the same formula z(alpha/2)*sqrt(p(1-p)/n) for every alpha in (0, 1)", ctx.where(q))
+        else:
+            chk.unknown("R04.4", "binomial_ci: " + err)
     else:
         exp = binomial_spec(Cn, Nn, A)
         dv, dl, dp = devalue(v)
